@@ -261,7 +261,7 @@ NodeMoves(it, c, R) ==
       (IF DepthOK(a, R) /\ ~(Overflows(c, Size(a), R) /\ BrokenFits(it, c, R)) THEN {Move(a.fl, <<>>, "one-line", FALSE)} ELSE {})
       \cup (IF ~MustFlat(it, c, R) /\ ~MustTable(it, c, R) THEN {Move(<<OpenB(a)>>, BrokenPush(it, R), "broken", FALSE)} ELSE {})
       \cup (IF Tabular(a, R) /\ ~MustFlat(it, c, R) /\ ~TableOverflow(it, c, R)
-            THEN {Move(TableBlock(a, it.lvl, R, TRUE), <<>>, "table", FALSE)} ELSE {})
+            THEN {Move(TableBlock(a, it.lvl, R, FALSE), <<>>, "table", FALSE)} ELSE {})   \* (the acceptor also tolerates the trailing-comma form: C04)
 
 VARIABLES todo,    \* tree cursor: the work list (head = what is written next; a node item carries its depth lvl)
           col,     \* column: characters already on the current line (remaining width = Width - col)
@@ -340,6 +340,8 @@ AccStep(S, x, R) ==
                 S |-> [todo |-> m.push \o Tail(S.todo), col |-> ColAfter(S.col, m.emit), pos |-> S.pos + Len(m.emit)]]
 AccInit(tree) == [todo |-> <<NodeIt(tree, 0, 0, "root")>>, col |-> 0, pos |-> 1]
 \* the indentation step a text uses: the spaces behind its first newline (2 if it has none)
+RECURSIVE CountWs(_, _)
+CountWs(x, p) == IF p <= Len(x) /\ x[p] \in {32, 9} THEN 1 + CountWs(x, p + 1) ELSE 0
 RECURSIVE CountSp(_, _)
 CountSp(x, p) == IF p <= Len(x) /\ x[p] = 32 THEN 1 + CountSp(x, p + 1) ELSE 0
 StepOf(x) == LET q == LineEnd(x, 1) IN IF q > Len(x) THEN 2 ELSE LET s == CountSp(x, q + 1) IN IF s = 0 THEN 2 ELSE s
